@@ -384,7 +384,8 @@ let shape_main verbose =
                     (s_underfilling key_size val_size !fk !fv !ps) (s_packs key_size val_size !fk !fv !ps)
                     (nat_of_int (List.length before + 1)) (nat_of_int 4) !w lo hi p in
          if compare w' (s_retain_in key_cmp key_size val_size !fk !fv !ps !sep !w lo hi p) <> 0 then print_endline "GLUE! retain_in";
-         w := w';
+         let m' = m_retain_in !fk !fv !ps !sep (erase_tree !w) lo hi p in
+         w := w'; check_erasure "retain_in (ScanTree.v)" m';
          (* cross check with the specification (RetainP.v proves it for the logical tree) *)
          if compare (abs_of !w) (retain_in key_cmp lo hi p before) <> 0 then print_endline "SPEC! retain_in";
          mark ("retain:" ^ (if List.length before = List.length (abs_of !w) then "nothing-removed" else "removed"));
@@ -394,11 +395,15 @@ let shape_main verbose =
          let before = abs_of !w in
          let lo = bound_of !kt toks.(1) and hi = bound_of !kt toks.(2) in
          let x = ref (s_extract_new !w lo hi) in
+         let mx = ref (m_extract_new (erase_tree !w) lo hi) in
          let spec = ref (ext_begin key_cmp before lo hi) in
          let outs = ref [] in
          let step d =
            let (e, x') = s_extract_next key_cmp key_size val_size !fk !fv !ps !sep entry_eqb p !x d in
            x := x';
+           let (me, mx') = m_extract_next !fk !fv !ps !sep entry_eqb p !mx d in
+           mx := mx';
+           if compare e me <> 0 then print_endline "ERASE! extract step (ScanTree.v yields another entry)";
            (* cross check with the specification iterator (RangeMutP.v proves it for the logical tree) *)
            let (e', s') = (match d with DNext -> ext_next p !spec | DPrev -> ext_next_back p !spec) in
            spec := s';
@@ -412,6 +417,7 @@ let shape_main verbose =
            | 'D' -> let go = ref true in while !go do (match step DPrev with Some e -> outs := pe e :: !outs | None -> go := false) done
            | _ -> ()) toks.(5);
          w := s_extract_close key_cmp key_size val_size !fk !fv !ps !sep entry_eqb !x;
+         check_erasure "extract (ScanTree.v)" (m_extract_close !fk !fv !ps !sep entry_eqb !mx);
          if compare (abs_of !w) (ext_finish !spec) <> 0 then print_endline "SPEC! extract result";
          mark ("extract:" ^ (if String.contains toks.(5) 'f' || String.contains toks.(5) 'd' then "front" else "") ^
                (if String.contains toks.(5) 'b' || String.contains toks.(5) 'D' then "back" else "") ^
